@@ -240,6 +240,8 @@ class World:
         if self._maybe_fault(rec):
             return {"none": None, "nonbool": 7}.get(self.fault_kind)
         v = self.verdicts.get(rail, "A")
+        if callable(v):
+            v = v(text)     # a verdict that depends on the text the rail sees (one rail flow running twice in a call)
         rec["verdict"] = v if isinstance(v, str) else v[0]
         if v == "A":
             return True  # never echo the text: action results are rendered into later prompts
